@@ -21,8 +21,12 @@ func (g *G) Int(n int) int {
 }
 func (g *G) Pick(l []string) string { return l[g.R.Intn(len(l))] }
 
-var idPoolAll = []string{"a", "b", "c", "d", "e", "f", "n+++1", "é", "pkg-1.0", "x y", "a1", "a11", "a+", "a++"}
-var strPool = []string{"x", "y", "v1", "é:+", "(c) 2024", "Apache-2.0", "a b", ""}
+var idPoolAll = []string{"a", "b", "c", "d", "e", "f", "n+++1", "é", "pkg-1.0", "x y", "a1", "a11", "a+", "a++",
+	// identifiers that differ from another one only in letter case
+	"A", "PKG-1.0"}
+var strPool = []string{"x", "y", "v1", "é:+", "(c) 2024", "Apache-2.0", "a b",
+	// text that is not empty but blank, and text that differs from another entry only in case
+	" ", "\t \n", "X", ""}
 var purlPool = []string{"pkg:npm/a@1", "pkg:npm/b@2", "pkg:deb/debian/c@3", "pkg:/npm/d@4", "pkg:golang/e",
 	// types that are textual prefixes of one another, and a name equal to a type
 	"pkg:go/f@1", "pkg:gem/g", "pkg:gemfury/h", "pkg:generic/npm"}
@@ -86,11 +90,11 @@ func (g *G) Pairs(keys []int, vals []string) []any {
 func (g *G) AttrValue(f AttrField) any {
 	switch f.Kind {
 	case "str":
-		return g.Pick(strPool[:7])
+		return g.Pick(strPool[:len(strPool)-1])
 	case "strs":
 		l := []any{}
 		for i := 0; i <= g.Int(2); i++ {
-			l = append(l, g.Pick(strPool[:7]))
+			l = append(l, g.Pick(strPool[:len(strPool)-1]))
 		}
 		if len(l) >= 2 && g.Chance(0.25) {
 			l = append(l, l[0]) // a repeated entry, not adjacent to its twin
@@ -110,17 +114,24 @@ func (g *G) AttrValue(f AttrField) any {
 			}
 			if g.Chance(0.3) {
 				out = append(out, []any{float64(3), "cpe:2.3:a:x"})
+				if g.Chance(0.4) {
+					out = append(out, []any{float64(2), "cpe:/a:x"}) // both CPE kinds on one node
+				}
 			}
 			if len(out) == 0 || g.Chance(0.1) {
 				out = append(out, []any{float64(g.Pick2([]int{0, 2, 4, 9})), "v"})
 			}
-			return out
+			return mapToPairs(pairsToMap(out)) // one entry per key, as in a map
 		}
 		return g.Pairs([]int{1, 2, 3}, hashVals)
 	case "date":
 		if g.Chance(0.08) {
 			// the epoch second itself: an absent date must not be mistaken for it
 			return []any{float64(0), float64(g.Pick2([]int{0, 500000000}))}
+		}
+		if g.Chance(0.06) {
+			// 0001-01-01T00:00:00Z, the lowest valid timestamp and Go's zero time: a present date all the same
+			return []any{float64(-62135596800), 0.0}
 		}
 		return []any{float64(1700000000 + g.Int(5)*86400), float64(g.Pick2([]int{0, 0, 500}))}
 	case "persons":
@@ -133,6 +144,11 @@ func (g *G) AttrValue(f AttrField) any {
 		l := []any{}
 		for i := 0; i <= g.Int(2); i++ {
 			l = append(l, g.Ref())
+		}
+		if g.Chance(0.2) {
+			twin := Normalize(l[0]).(M)
+			twin["c"] = "another comment"
+			l = append(l, twin) // same type and URL as the first, different comment
 		}
 		return l
 	}
